@@ -25,10 +25,11 @@ CLAIMED = {
          "FseidAddressesSession after every consumed step of the reference state machine (associations, live sessions with CP/UP SEIDs).",
          "Histories are sampled, not enumerated; acceptance of valid requests is not asserted except that a deletion naming a live session is not refused; one response is judged within a silence window. " + TRUST,
          "5 C02"),
- "C03": ("TLA+ R-specs Pfcp + BessImage (image function of the live sessions' rules; ports compared by PortRange!ExactCoverPair): TLC validates the BESS tables recorded after every step of the real agent",
+ "C03": ("TLA+ R-specs Pfcp + BessImage (image function of the live sessions' rules; ports compared by PortRange!ExactCoverPair) + GEN scripts from BessScript.tla replayed into the agent: TLC validates the BESS tables recorded after every step of the real agent",
          "After every accepted establishment / modification / deletion and after every (re)start - including SIGKILL of the agent and a new incarnation against the still populated server - TLC compares the "
          "content of the harness-owned BESS server (pdrLookup, farLookup, appQERLookup, sessionQERLookup) with the image the reference specification computes from the live sessions' current rules "
          "(TablesAreImage: nothing missing, nothing else present), and checks UnknownOrUnassociatedRejected, RejectedWritesNothing and StartClearsLookupModules. "
+         "In addition (GEN) TLC generates every script of 4 (thorough: 5) operations over two sessions of different associations (spec/BessScript.tla, 831 / 6 884 scripts) and the harness replays them into the real agent. "
          "Listed known finding F-QER-RELABEL is tolerated through named slack only for sessions whose history triggers it.",
          "Randomised histories inside the generators' envelope (DESIGN A.1); kill points are between script steps and, half of the time, inside a request (the datapath server kills the agent at the K-th command it receives for the request); packet-level Classify=Denote is argued compositionally (field-wise image) rather than sampled. " + TRUST,
          "5 C03"),
